@@ -149,7 +149,7 @@ class DomHarness:
         uids = []
         for i in range(n):
             kids = [refs[c] for c in range(1, n) if shape[c] == i]
-            parent = none_term() if i == 0 else refs[shape[i]]
+            parent = none_term() if (i == 0 or shape[i] < 0) else refs[shape[i]]
             props = self.mk_props(ex, tag, i, cfg, None)
             for k, v in props:
                 if v.variant == 'UniqueId':
@@ -295,11 +295,17 @@ class DomHarness:
                 raise Violation('%s: descendants_of yields child %s before its parent %s' % (what, x, p))
 
 
-def shapes(n):
-    """parent vectors for n nodes, node 0 root; parent index < own index"""
+def shapes(n, orphans=True):
+    """parent vectors for n nodes, node 0 = root; parent index < own index, or -1 = no parent (a detached tree such as
+    the result of clone_*: the invariant allows parentless instances besides the root)"""
     if n == 1:
         return [(0,)]
-    return [(0,) + s for s in itertools.product(*[range(i) for i in range(1, n)])]
+    lo = -1 if orphans else 0
+    return [(0,) + s for s in itertools.product(*[range(lo, i) for i in range(1, n)])]
+
+
+def tree_shapes(n):
+    return shapes(n, orphans=False)
 
 
 def subtree(d, x):
